@@ -263,6 +263,8 @@ fn paths(id: &'static str, game: &Game) -> (Option<Entry>, Option<Entry>) {
 }
 
 struct Obs {
+    /// socket timeouts applied (read / write / connect), in order
+    timeouts: Vec<String>,
     sends: Vec<(SocketAddr, Vec<u8>)>,
     class: String,
     /// protocol-specific value (canonical JSON), common view, original view
@@ -291,9 +293,21 @@ fn observe(run: &RunOut, http_as_send: bool) -> Obs {
         }
     }
     let text = describe_result(&run.result, &run.crash);
+    let timeouts: Vec<String> = run
+        .world
+        .hist
+        .iter()
+        .filter_map(|h| {
+            match h {
+                crate::world::Hist::SetTimeout { read, value, .. } => Some(format!("{}={value:?}", if *read { "read" } else { "write" })),
+                crate::world::Hist::TcpConnect { timeout, .. } => Some(format!("connect={timeout:?}")),
+                _ => None,
+            }
+        })
+        .collect();
     match (&run.crash, &run.result) {
-        (Some(c), _) => Obs { sends, class: c.signature(), specific: None, common: None, original: None, text },
-        (_, Some(Err(e))) => Obs { sends, class: format!("Err/{:?}", e.kind), specific: None, common: None, original: None, text },
+        (Some(c), _) => Obs { timeouts, sends, class: c.signature(), specific: None, common: None, original: None, text },
+        (_, Some(Err(e))) => Obs { timeouts, sends, class: format!("Err/{:?}", e.kind), specific: None, common: None, original: None, text },
         (_, Some(Ok(r))) => {
             let (specific, common, original) = match r {
                 Resp::Generic { json, original, .. } => (None, Some(json.clone()), Some(canon(original.clone()))),
@@ -306,9 +320,9 @@ fn observe(run: &RunOut, http_as_send: bool) -> Obs {
                     )
                 }
             };
-            Obs { sends, class: "Ok".into(), specific, common, original, text }
+            Obs { timeouts, sends, class: "Ok".into(), specific, common, original, text }
         }
-        _ => Obs { sends, class: "none".into(), specific: None, common: None, original: None, text },
+        _ => Obs { timeouts, sends, class: "none".into(), specific: None, common: None, original: None, text },
     }
 }
 
@@ -318,10 +332,10 @@ impl Prop for C14 {
     fn level(&self) -> &'static str { "exploration" }
 
     fn cases(&self, tier: Tier) -> u64 {
-        let n = sorted_game_ids().len() as u64 * BEHAVIOURS * 2;
+        let n = sorted_game_ids().len() as u64 * BEHAVIOURS * 2 * 2;
         match tier {
-            Tier::Quick => n * 6,
-            Tier::Thorough => n * 600,
+            Tier::Quick => n * 3,
+            Tier::Thorough => n * 300,
         }
     }
 
@@ -331,6 +345,13 @@ impl Prop for C14 {
         let id = ids[(idx % ids.len() as u64) as usize];
         let behaviour = (idx / ids.len() as u64) % BEHAVIOURS;
         let port_given = (idx / (ids.len() as u64 * BEHAVIOURS)) % 2 == 1;
+        // every other block passes explicit timeout settings (retries 1, sub-default durations): the
+        // per-game modules take none, so only the generic and the protocol-level paths are compared
+        let with_ts = (idx / (ids.len() as u64 * BEHAVIOURS * 2)) % 2 == 1;
+        let ts = with_ts.then(|| {
+            let d = |t: &mut Tape| std::time::Duration::from_millis(*t.pick(CFG, &[250u64, 1000, 2500]));
+            gamedig::protocols::types::TimeoutSettings::new(Some(d(&mut t)), Some(d(&mut t)), Some(d(&mut t)), 1).unwrap()
+        });
         let game = gamedig::GAMES.get(id).unwrap();
         let golden = crate::golden::port(id).unwrap_or(game.default_port);
         let explicit = 1024 + t.draw(CFG, 60_000) as u16;
@@ -346,11 +367,15 @@ impl Prop for C14 {
         let (module_entry, protocol_entry) = paths(id, game);
         let eco = matches!(game.protocol, Protocol::PROPRIETARY(ProprietaryProtocol::Eco));
         let run_path = |entry: Entry| -> RunOut {
-            let call = Call { entry, ip: SERVER_IP, port, default_port: golden, timeout: None };
+            let call = Call { entry, ip: SERVER_IP, port, default_port: golden, timeout: ts };
             run_call(world_from(&bp, &ports, rt_seed), &call)
         };
         // (a) the generic definition-driven entry point
         let ra = run_path(Entry::Generic { game_id: id, extra: None, level: 2 });
+        let module_entry = if with_ts { None } else { module_entry };
+        if with_ts {
+            out.probe("explicit_timeout_settings");
+        }
         let oa = observe(&ra, eco);
         out.absorb(&ra.world);
         let mut sample_paths = vec![json!({"path": "generic", "result": oa.text, "sends": oa.sends.len()})];
@@ -383,6 +408,10 @@ impl Prop for C14 {
                     fmt(&oa.sends),
                     fmt(&ob.sends),
                 ));
+                return;
+            }
+            if oa.timeouts != ob.timeouts {
+                out.violate(Violation::new(format!("{id}|{name}|socket-timeouts"), format!("generic vs {name}: different timeouts applied to the sockets"), format!("{:?}", oa.timeouts), format!("{:?}", ob.timeouts)));
                 return;
             }
             if oa.class != ob.class {
@@ -451,13 +480,13 @@ impl Prop for C14 {
     }
 
     fn rule(&self) -> String {
-        "case index enumerates every entry of the definitions table x 6 server behaviours (valid with the main / dedicated / a foreign app id, partial: players section silent, partial: rules section silent, total silence) x port given / omitted; the tape draws the server state and transport; each case builds three identical worlds (same state, same runtime seed) and runs (a) query_with_timeout_and_extra_settings, (b) the game's dedicated module where one exists, (c) the protocol's own query function with the definition's parameters; oracle: same destination port and request bytes in the same order, same outcome class / error kind, equal common view and protocol-specific value (per-game Valve responses through the library's conversion); distinct = (cell, event-log hash)".to_string()
+        "case index enumerates every entry of the definitions table x 6 server behaviours (valid with the main / dedicated / a foreign app id, partial: players section silent, partial: rules section silent, total silence) x port given / omitted x default / explicit timeout settings (explicit: generic vs protocol-level only, the modules take none); the tape draws the server state and transport; each case builds three identical worlds (same state, same runtime seed) and runs (a) query_with_timeout_and_extra_settings, (b) the game's dedicated module where one exists, (c) the protocol's own query function with the definition's parameters; oracle: same destination port and request bytes in the same order, same outcome class / error kind, equal common view and protocol-specific value (per-game Valve responses through the library's conversion); distinct = (cell, event-log hash)".to_string()
     }
 
     fn assumptions(&self) -> Vec<String> {
         vec![
             "the simulated host listens on the given port, else on the game's documented default (golden snapshot of the definitions table); a Minecraft host answers Bedrock on 19132 when no port is given".into(),
-            "timeouts are the defaults in all three paths (per-game modules take no timeout argument)".into(),
+            "per-game modules take no timeout argument: they are compared under the default timeouts only".into(),
         ]
     }
 
